@@ -26,6 +26,7 @@ DOC = {
  "C19.R5": "both runtimes: from_boxed of a *serialized* message is inside catch_unwind and both failure arms return Ok(()) without reaching handle (sibling cross-check Send vs thread-local)",
  "C19.R6": "job metadata: every split_off(k) / try_into().unwrap() on peer bytes is dominated by a length comparison that guarantees k bytes",
  "C19.R7": "tables agree: frame header written with u64::to_be_bytes and read with read_u64; every numeric BytesConvertable impl pairs to_be_bytes with from_be_bytes",
+ "C19.R9": "round trip, structural part: no narrowing integer `as` cast in any BytesConvertable::into_bytes; an Option encoded as map(f).unwrap_or(K) has f provably != K (recognised: saturating_add(_, c>=1) with K = 0)",
  "C19.R8": "limit plumbing: every NodeSession the node server creates gets with_max_inbound_frame_size(self.max_inbound_frame_size); the session hands its limit to the transport and the reader passes it to the frame reader",
 }
 
@@ -430,6 +431,68 @@ def r8(run, db):
         run.check(bool(okf), "reader-uses-its-limit", "the reader passes its own max_inbound_frame_size to the frame reader", "reader passes a different limit", g.where())
 
 
+WIDTH = {"u8": 8, "i8": 8, "u16": 16, "i16": 16, "u32": 32, "i32": 32, "u64": 64, "i64": 64, "u128": 128, "i128": 128, "usize": 64, "isize": 64}
+
+
+def r9(run, db):
+    """round trip, structural part: an encoder cannot lose information that the decoder would need.
+    (a) no narrowing integer cast (`x as u64` of a u128, ...) in any BytesConvertable::into_bytes of the workspace: a
+        truncated value decodes to a different one;
+    (b) an Option written as `opt.map(f).unwrap_or(K)`: the sentinel K must not be a possible value of f (otherwise
+        Some(x) with f(x) = K decodes as None)."""
+    encs = []
+    for f in db.fns.values():
+        if f.crate not in ("ractor", "ractor_cluster"):
+            continue
+        if (f.raw.get("trait_item") or "").endswith("BytesConvertable::into_bytes"):
+            encs.append(f)
+    run.anchor("BytesConvertable::into_bytes implementations", len(encs), 10)
+    ncast = nopt = 0
+    for f in encs:
+        fam = db.family(f.id)
+        for g in fam:
+            for site, st in g.stmts():
+                if st["k"] == "assign" and st["rv"]["k"] == "cast" and st["rv"].get("kind", "").startswith("IntToInt"):
+                    src = op_place(st["rv"]["op"])
+                    sty = g.local_ty(src[0]) if src and not src[1] else None
+                    dty = st["rv"].get("ty")
+                    if sty in WIDTH and dty in WIDTH:
+                        ncast += 1
+                        who = (f.raw.get("impl_self") or f.id).split("::")[-1]
+                        run.check(WIDTH[sty] <= WIDTH[dty], "encoder-no-narrowing-cast:%s:%s->%s" % (who, sty, dty), "%s: integer cast %s -> %s in the encoder does not narrow" % (who, sty, dty),
+                                  "the encoder of %s narrows an integer with `as` (%s -> %s): values that do not fit wrap around and decode as a different value" % (who, sty, dty), g.where(st.get("l")))
+        # (b) sentinel collisions
+        for c in f.calls():
+            if not c.matches(r"Option::<T>::unwrap_or$"):
+                continue
+            k = sym(f, c.args[1]) if len(c.args) > 1 else None
+            maps = [r["call"] for r in f.origins(c.args[0]) if r["k"] == "call" and r["call"].matches(r"Option::<T>::map$")]
+            if not maps or not k or k[0] != "c":
+                continue
+            nopt += 1
+            who = (f.raw.get("impl_self") or f.id).split("::")[-1]
+            ok = False
+            why = "the mapping closure can produce the sentinel"
+            for mcall in maps:
+                for r in f.origins(mcall.args[1]):
+                    cl = db.fns.get(r["stmt"]["rv"].get("def")) if r["k"] == "agg" else None
+                    if cl is None:
+                        continue
+                    rets = cl.origins([0, []])
+                    good = bool(rets)
+                    for rr in rets:
+                        if rr["k"] == "call" and rr["call"].matches(r"::saturating_add$|::checked_add$|::wrapping_add$") and rr["call"].matches(r"saturating_add$"):
+                            inc = sym(cl, rr["call"].args[1])
+                            if inc[0] == "c" and inc[1] >= 1 and k[1] == 0:
+                                continue
+                        good = False
+                    ok = ok or good
+            run.check(ok, "option-sentinel-disjoint:%s" % who, "%s: Some(x) is written as a value that can never equal the None sentinel %s" % (who, k[1]),
+                      "%s encodes an Option as map(f).unwrap_or(%s) but f can yield %s: that Some value decodes as None (e.g. a zero TTL becomes no TTL)" % (who, k[1], k[1]), c.where())
+    run.anchor("integer casts in encoders", ncast, 1)
+    run.anchor("sentinel-encoded options", nopt, 1)
+
+
 Q = ["rc"]
 TH = ["rc", "rcatr", "ws"]
 RULES = [
@@ -441,6 +504,7 @@ RULES = [
     {"id": "C19.R6", "fn": r6, "quick": Q, "thorough": TH},
     {"id": "C19.R7", "fn": r7, "quick": Q, "thorough": TH},
     {"id": "C19.R8", "fn": r8, "quick": Q, "thorough": TH},
+    {"id": "C19.R9", "fn": r9, "quick": Q, "thorough": TH},
 ]
 from .positive import control
 RULES.append({"id": "C19.P", "fn": control('alloc'), "quick": ["pos"], "thorough": ["pos"]})
